@@ -147,6 +147,36 @@ def run(ctx):
         obs.append(o)
         specs.append((spec, kind))
         exprs.append(model_expr(o))
+        if rng.random() < 0.5:
+            # the same model object, re-configured (what a retrieval does between likelihood calls) and evaluated again:
+            # the spectrum must be the integral for the NEW star, planet and composition
+            upd = {}
+            try:
+                with np.errstate(all='ignore'):
+                    if rng.random() < 0.7:
+                        upd['star.temperature'] = float(model.star.temperature) * rng.uniform(0.6, 1.5)
+                        model.star.temperature = upd['star.temperature']
+                    if rng.random() < 0.5:
+                        upd['planet_radius'] = float(model['planet_radius']) * rng.uniform(0.8, 1.2)
+                        model['planet_radius'] = upd['planet_radius']
+                    g = rng.choice(spec['gases'])
+                    if rng.random() < 0.5 and float(model[g]) > 0:
+                        upd[g] = float(model[g]) * 10 ** rng.uniform(-1, 1)
+                        model[g] = upd[g]
+                    if 'T' in model.fittingParameters and rng.random() < 0.5:
+                        upd['T'] = rng.uniform(300, 2500)
+                        model['T'] = upd['T']
+                    o2 = observe(model, direct)
+                spec2 = dict(spec, updated=upd)
+                oracle(ctx, o2, spec2)
+                obs.append(o2)
+                specs.append((spec2, 'iso' if len(set(o2['T'].tolist())) == 1 else kind))
+                exprs.append(model_expr(o2))
+                ctx.count('re-evaluated after update')
+            except Exception as e:
+                import traceback
+                ctx.violation('impl-raises:update', 'emission model raised %r after parameter updates %r %s'
+                              % (e, upd, traceback.format_exc()[-500:]), replay=dict(spec=spec, direct=direct, updated=upd))
         ctx.count('T:' + kind)
         ctx.count('model:' + ('direct' if direct else 'eclipse'))
         ctx.count('level:' + spec['level'])
